@@ -27,6 +27,8 @@ def small_sweep():
         lab = os.path.basename(pair[0]) + "-be"
         cases += G.sweep(g, d, "gcno", label=lab)
         cases += G.sweep(g, d, "gcda", label=lab)
+    # functions that declare 0, 1 or 2 basic blocks (formats 4.2 / 4.7 / 4.8 / 8.0, with and without gcda)
+    cases += G.degenerate_cases()
     # version words that differ from a real one only in the release-status character: must be an error
     for pair in G.SMALL + G.GCC:
         g, d = G.fixture(pair)
@@ -129,7 +131,7 @@ def run_gcno_part(chk):
     impl = G.run_guarded(cases, chk.pid)
     # gcda words that are the identifier of a FUNCTION record, and the identifiers each gcno announces: substituting an
     # identifier the gcno does not have must be an error (never counts attributed to another function)
-    ident_pos, known_ids = {}, {}
+    ident_pos, known_ids, arcs_len = {}, {}, {}
     import cgen
     for pair in G.SMALL + G.GCC:
         g, d = G.fixture(pair)
@@ -137,10 +139,11 @@ def run_gcno_part(chk):
         for lab_, g_, d_ in ((lab, g, d),) + (((lab + "-be", cgen.to_big_endian_gcno(g), cgen.to_big_endian_gcda(d)),) if pair in G.SMALL[:2] else ()):
             try:
                 ident_pos[lab_] = {i for i, _v in G.function_idents(d_)}
+                arcs_len[lab_] = dict(G.counter_records(d_))
                 known_ids[lab_] = G.gcno_idents_scan(g_)
             except Exception:
                 pass
-    dist = {"cases": len(cases), "ok": 0, "err": 0, "prefix": 0, "word": 0, "multi": 0, "status": 0, "max_ms": 0, "gcda_prefix_ok": 0, "model_cases": 0, "model_outoffuel": 0}
+    dist = {"cases": len(cases), "ok": 0, "err": 0, "prefix": 0, "word": 0, "multi": 0, "status": 0, "degen": 0, "max_ms": 0, "gcda_prefix_ok": 0, "model_cases": 0, "model_outoffuel": 0}
     full = {}
     forced = []
     for ci, (c, r) in enumerate(zip(cases, impl)):
@@ -160,8 +163,16 @@ def run_gcno_part(chk):
         if m[2] == "status" and k == "ok":
             chk.violation({"kind": "oracle", "engine": "gcno", "case": c, "impl": r,
                            "clause": "a version word whose release-status character is not '*' is not a version grcov reads: error, never a result"}, tag="status")
-        if m[2] == "status":
+        if m[2] in ("status", "degen"):
             forced.append(ci)
+        # the length word of a counter record replaced by a value that announces another number of counters than the
+        # function has measured arcs: an error (never counters taken from the bytes of the following records)
+        if m[1] == "gcda" and m[2] == "word" and m[0] in arcs_len and m[3] in arcs_len[m[0]] and m[4] // 2 != arcs_len[m[0]][m[3]] // 2:
+            dist["arcs_length"] = dist.get("arcs_length", 0) + 1
+            forced.append(ci)
+            if k == "ok":
+                chk.violation({"kind": "oracle", "engine": "gcno", "case": c, "impl": r,
+                               "clause": "a counter record whose length does not match the number of measured arcs of its function is an error, never a result with counts that are not in the file"}, tag="arcslen")
         if m[1] == "gcda" and m[2] == "word" and m[0] in ident_pos and m[3] in ident_pos[m[0]] and m[4] not in known_ids[m[0]]:
             dist["foreign_ident"] = dist.get("foreign_ident", 0) + 1
             forced.append(ci)
@@ -190,7 +201,7 @@ def run_gcno_part(chk):
     # outcome class of the model on a sample of the stream (small inputs only)
     small = [i for i, c in enumerate(cases) if len(c["gcno"]) <= 4000 and all(len(g) <= 2000 for g in c["gcdas"])]
     sel = chk.rng.sample(small, min(len(small), 700 if quick else 2500))
-    sel = sorted(set(sel) | set(forced[:300]))          # the foreign-identifier cases are always compared with the model
+    sel = sorted(set(sel) | set(forced[:300]) | set(chk.rng.sample(forced, min(len(forced), 300))))          # the foreign-identifier cases are always compared with the model
     model = G.run_model(chk.pid, [cases[i] for i in sel], fn="class_gcno", shard_size=120)
     dis = []
     for i, rm in zip(sel, model):
